@@ -177,6 +177,62 @@ def run(R, tier):
     R.check(not bad, "R05.7", "stream-ops", "the shared token stream is only peeked / advanced (%d call sites)" % n, "token stream used by %s: it may only be peeked or advanced, never cloned, rewound or replaced" % bad)
     R.floor("R05.7", "token stream call sites", n, 6)
 
+    # ---- R05.8 a failed write at the start of a unit is returned before any handler runs ----------------------------------
+    # Formatter::response_unit is called by exec before the query handler; if the separator cannot be written the
+    # unit must fail there. Every fallible write's result has to be examined (and its Err returned) or be the return
+    # value itself - a result parked in a struct, folded away or overwritten lets the handler run on a failed buffer.
+    from . import emit as E
+    impls = u.impl_methods("parser::response::Formatter", "response_unit")
+    R.floor("R05.8", "Formatter::response_unit impls", len(impls), 2)
+    n_fail = 0
+    for b in impls:
+        who = "ArrayVec" if "ArrayVec" in (b.impl_self or "") else "Vec" if "Vec" in (b.impl_self or "") else (b.impl_self or "?")
+        try:
+            res = eng.run(b, [RefV(Cell(TOP, "buf"), (), True)])
+            why = E.check_write_discipline(res)
+            n_fail += sum(1 for r in res if r.outcome == "return" and E.write_discipline(r)[3])
+        except (fdai.TooManyPaths, RecursionError) as e:
+            why = ["undecided (%s)" % type(e).__name__]
+        R.check(not why, "R05.8", "%s::response_unit" % who, "the result of every write is examined and a failure is returned to exec (so the handler does not run)", "; ".join(why[:3]), where=b.span)
+    R.count("response_unit_failing_paths", n_fail)
+
+    # ---- R05.9 response-data writers return the failure of any write they make --------------------------------------------
+    em = E.engine()
+    EC = "scpi::error::ErrorCode"
+    by_name = {v: d for d, v in (em.enum_tables.get(EC) or {}).items()}
+
+    def reps(self_ty):
+        s = self_ty or ""
+        if s == "&'a [u8]":
+            return [("text", E.sl(b'a"b'))]
+        if s.endswith("error::Error"):
+            if "DeviceSpecificError" not in by_name:
+                raise facts.AnchorLost("ErrorCode::DeviceSpecificError")
+            cv = EnumV(EC, "DeviceSpecificError", by_name["DeviceSpecificError"], {})
+            return [("plain", AggV("scpi::error::Error", {0: cv, 1: fdai.mk_option(None)})), ("extended", AggV("scpi::error::Error", {0: cv, 1: fdai.mk_option(E.sl(b"x"))}))]
+        if s.startswith(("alloc::vec::Vec<", "arrayvec::ArrayVec<")):
+            return [("n=%d" % n, fdai.ListV([Cell(SymV("el%d" % i, "el%d" % i), "el%d" % i) for i in range(n)])) for n in (1, 2, 3)]
+        return [("any", TOP)]
+
+    n_w = 0
+    for unit in P.units:
+        for b in unit.bodies:
+            if b.name != "format_response_data" or "ResponseData" not in (b.impl_trait or ""):
+                continue
+            n_w += 1
+            why = []
+            for label, val in reps(b.impl_self):
+                try:
+                    res = em.run(b, [RefV(Cell(val, "self")), RefV(Cell(TOP, "fmt"), (), True)])
+                    why += ["%s: %s" % (label, w) for w in E.check_write_discipline(res)]
+                except (fdai.TooManyPaths, RecursionError) as e:
+                    why.append("%s: undecided (%s)" % (label, type(e).__name__))
+            key = (b.impl_self or "?").split("<(dyn")[0]
+            if "uom::si::Quantity" in key:
+                key = "Quantity#%s" % (b.span or "").split(":")[0].split("/")[-1]
+            R.check(not why, "R05.9", "writer:%s:%s" % (unit.crate, key), "every write's result is examined or returned: a buffer failure inside the writer reaches the handler as its error", "; ".join(why[:3]), where=b.span)
+    R.floor("R05.9", "ResponseData writers", n_w, 45)
+
 
 def _site(b, c):
     # stable ordinal of this call among calls to the same callee in the body
